@@ -9,7 +9,7 @@ class Unsupported(Exception):
     pass
 
 
-TOK = re.compile(r'\s*(::|=>|==|!=|&&|\|\||\+=|[A-Za-z_][A-Za-z0-9_]*!?|\d+|"(?:[^"\\]|\\.)*"|[{}()\[\],;:.&|!=<>_])')
+TOK = re.compile(r'\s*(::|=>|==|!=|&&|\|\||\+=|\*|[A-Za-z_][A-Za-z0-9_]*!?|\d+|"(?:[^"\\]|\\.)*"|[{}()\[\],;:.&|!=<>_])')
 
 
 def tokenize(src):
@@ -213,7 +213,7 @@ def translate(body, env, kind):
 CONTAINERS = {'to_delete': 'del', 'to_copy': 'cpy', 'src_entries': 'src', 'dest_entries': 'dst'}
 DEL_REASON = {'DeleteReason::NotOnSource': '.notOnSource', 'DeleteReason::Incompatible': '.incompatible'}
 COPY_REASON = {'CopyReason::SameTimeAndNotSkipped': '.sameTime', 'CopyReason::DestOlder': '.destOlder', 'CopyReason::DestNewer': '.destNewer', 'CopyReason::NotOnDest': '.notOnDest'}
-STATS_WORDS = re.compile(r'ctx|stats|size|saturating_add|add|num_\w+|\w+_total_bytes|\w+_hist|\d+|[.()=]|\+=')
+STATS_WORDS = re.compile(r'ctx|stats|size|saturating_add|add|num_\w+|\w+_total_bytes|\w+_hist|\d+|[.()=*]|\+=')
 
 
 class S(P):
@@ -380,3 +380,37 @@ def translate_proc(body, entry):
     e = p.stmt_block()
     if p.peek() is not None: raise Unsupported('trailing tokens')
     return e
+
+
+DELETE_CMDS = {'Command::DeleteFile': ('.deleteFile', False), 'Command::DeleteFolder': ('.deleteFolder', False), 'Command::DeleteSymlink': ('.deleteSymlink', True)}
+
+
+def translate_delete_cmd(match_text, path_name, entry_name):
+    """`match <entry> { pattern => { statistics...; Command::DeleteX { path: <path>.clone() [, kind: *kind] } } ... }` -> a Lean `match` giving a `Cmd`"""
+    p = S(tokenize(match_text), [entry_name])
+    p.eat('match'); p.eat(entry_name); p.eat('{')
+    arms = []
+    while p.peek() != '}':
+        pat = p.pattern(); p.eat('=>'); p.eat('{')
+        while p.peek() == 'ctx':
+            p.stats_stmt((';',)); p.eat(';')
+        key = '::'.join(p.path())
+        if key not in DELETE_CMDS: raise Unsupported('command ' + key)
+        ctor, has_kind = DELETE_CMDS[key]
+        p.eat('{'); fields = {}
+        while p.peek() != '}':
+            fld = p.eat(); p.eat(':')
+            if fld == 'path':
+                p.eat(path_name); p.eat('.'); p.eat('clone'); p.eat('('); p.eat(')'); fields['path'] = 'p'
+            elif fld == 'kind':
+                p.eat('*'); fields['kind'] = p.name(p.eat())
+            else:
+                raise Unsupported('field ' + fld)
+            if p.peek() == ',': p.eat(',')
+        p.eat('}'); p.eat('}')
+        if p.peek() == ',': p.eat(',')
+        if set(fields) != ({'path', 'kind'} if has_kind else {'path'}): raise Unsupported('fields of ' + key)
+        arms.append(f' | {pat} => {ctor} p' + (' ' + fields['kind'] if has_kind else ''))
+    p.eat('}')
+    if p.peek() is not None: raise Unsupported('trailing tokens')
+    return '(match d with' + ''.join(arms) + ')'
